@@ -6,7 +6,7 @@ use crate::core::*;
 use crate::gen::{plain, seed, Seed, P};
 use actix_http::body::BodySize;
 use actix_http::h1::{self, ClientCodec, ClientPayloadCodec, Message, MessageType};
-use actix_http::{HttpMessage as _, Method, RequestHead, RequestHeadType, ServiceConfig};
+use actix_http::{HttpMessage as _, Method, RequestHead, RequestHeadType};
 use bytes::BytesMut;
 use std::sync::Arc;
 use tokio_util::codec::{Decoder, Encoder};
@@ -21,7 +21,7 @@ fn err_kind(e: &dyn std::fmt::Debug) -> String {
 // server
 
 fn server_exec(input: &[u8], mode: Mode) -> Out {
-    let mut codec = h1::Codec::new(ServiceConfig::default());
+    let mut codec = h1::Codec::new(crate::hutil::service_config());
     let mut buf = BytesMut::new();
     let (mut heads, mut chunks, mut eofs) = (0u32, 0u32, 0u32);
     let mut touched = 0usize;
@@ -99,6 +99,13 @@ fn header_alphabet() -> Vec<Vec<u8>> {
     ])
 }
 
+/// Tokens for field-length limits: runs of 65 535 / 65 536 / 70 000 token characters (the `http`
+/// crate caps header names and URIs at u16 lengths; the read buffer cap is 131 072) plus a few
+/// separators. Delivered whole only (a 1-byte delivery of 70 kB is quadratic).
+pub fn long_alphabet() -> Vec<Vec<u8>> {
+    vec![vec![b'a'; 65_535], vec![b'a'; 65_536], vec![b'a'; 70_000], b"a".to_vec(), b"-".to_vec(), b":".to_vec(), b" ".to_vec(), b"\r\n".to_vec()]
+}
+
 pub fn server_seeds() -> Vec<Seed> {
     vec![
         plain("get", b"GET /a/b?x=1 HTTP/1.1\r\nHost: h\r\n\r\n"),
@@ -159,8 +166,25 @@ pub fn server_group() -> Group {
         mk("header-section", b"GET / HTTP/1.1\r\n", b"\r\n\r\n", header_alphabet(), [4, 5]),
         mk("content-length", b"POST / HTTP/1.1\r\nContent-Length:", b"\r\n\r\nhello", cl_alphabet(), [4, 5]),
         mk("transfer-encoding", b"POST / HTTP/1.1\r\nTransfer-Encoding:", b"\r\n\r\n5\r\nhello\r\n0\r\n\r\n", te_alphabet(), [4, 5]),
-        mk("chunked-body", b"POST / HTTP/1.1\r\nTransfer-Encoding: chunked\r\n\r\n", b"", body_alphabet(), [4, 5]),
+        mk("chunked-body", b"POST / HTTP/1.1\r\nTransfer-Encoding: chunked\r\n\r\n", b"", body_alphabet(), [4, 6]),
     ];
+    for (name, prefix, suffix) in [
+        ("long:method", b"".as_ref(), b" / HTTP/1.1\r\n\r\n".as_ref()),
+        ("long:uri", b"GET /", b" HTTP/1.1\r\n\r\n"),
+        ("long:header-name", b"GET / HTTP/1.1\r\n", b": x\r\n\r\n"),
+        ("long:header-value", b"GET / HTTP/1.1\r\nX: ", b"\r\n\r\n"),
+        ("long:chunk-extension", b"POST / HTTP/1.1\r\nTransfer-Encoding: chunked\r\n\r\n5;", b"\r\nhello\r\n0\r\n\r\n"),
+        ("long:trailer-name", b"POST / HTTP/1.1\r\nTransfer-Encoding: chunked\r\n\r\n0\r\n", b": x\r\n\r\n"),
+    ] {
+        let mut t = mk(name, prefix, suffix, long_alphabet(), [2, 3]);
+        t.delivery = Delivery::Whole;
+        targets.push(t);
+    }
+    // header-count limit (MAX_HEADERS = 96)
+    let many = |n: usize| -> Vec<u8> { b"a: b\r\n".repeat(n) };
+    let mut t = mk("long:many-headers", b"GET / HTTP/1.1\r\n", b"\r\n", vec![many(95), many(96), many(97), many(1), b"x\r\n".to_vec(), b"Content-Length: 0\r\n".to_vec()], [3, 3]);
+    t.delivery = Delivery::Whole;
+    targets.push(t);
     targets.push(Target {
         name: "h1-server:seed".into(),
         prefix: vec![],
@@ -195,7 +219,7 @@ enum Cl {
 }
 
 fn client_exec(head_method: bool, input: &[u8], mode: Mode) -> Out {
-    let mut codec = ClientCodec::default();
+    let mut codec = ClientCodec::new(crate::hutil::service_config());
     encode_request(&mut codec, head_method);
     let mut st = Cl::Head(codec);
     let mut buf = BytesMut::new();
@@ -229,7 +253,7 @@ fn client_exec(head_method: bool, input: &[u8], mode: Mode) -> Out {
                             // the exchange is over; the connection would carry the next request
                             // (awc builds a fresh codec for every request it sends)
                             MessageType::None => {
-                                let mut c = ClientCodec::default();
+                                let mut c = ClientCodec::new(crate::hutil::service_config());
                                 encode_request(&mut c, head_method);
                                 Cl::Head(c)
                             }
@@ -259,7 +283,7 @@ fn client_exec(head_method: bool, input: &[u8], mode: Mode) -> Out {
                             eofs += 1;
                             touched += p.keep_alive() as usize;
                             touched += p.into_message_codec().keep_alive() as usize;
-                            let mut c = ClientCodec::default();
+                            let mut c = ClientCodec::new(crate::hutil::service_config());
                             encode_request(&mut c, head_method);
                             Cl::Head(c)
                         }
@@ -347,7 +371,19 @@ pub fn client_group() -> Group {
         targets.push(mk("content-length", b"HTTP/1.1 200 OK\r\nContent-Length:", b"\r\n\r\nhello", cl_alphabet(), short));
         if !head_method {
             targets.push(mk("transfer-encoding", b"HTTP/1.1 200 OK\r\nTransfer-Encoding:", b"\r\n\r\n5\r\nhello\r\n0\r\n\r\n", te_alphabet(), [4, 5]));
-            targets.push(mk("chunked-body", b"HTTP/1.1 200 OK\r\nTransfer-Encoding: chunked\r\n\r\n", b"", body_alphabet(), [4, 5]));
+            targets.push(mk("chunked-body", b"HTTP/1.1 200 OK\r\nTransfer-Encoding: chunked\r\n\r\n", b"", body_alphabet(), [4, 6]));
+        }
+        if !head_method {
+            for (name, prefix, suffix) in [
+                ("long:reason", b"HTTP/1.1 200 ".as_ref(), b"\r\nContent-Length: 0\r\n\r\n".as_ref()),
+                ("long:header-name", b"HTTP/1.1 200 OK\r\nContent-Length: 0\r\n", b": x\r\n\r\n"),
+                ("long:header-value", b"HTTP/1.1 200 OK\r\nContent-Length: 0\r\nX: ", b"\r\n\r\n"),
+                ("long:chunk-extension", b"HTTP/1.1 200 OK\r\nTransfer-Encoding: chunked\r\n\r\n5;", b"\r\nhello\r\n0\r\n\r\n"),
+            ] {
+                let mut t = mk(name, prefix, suffix, long_alphabet(), [2, 3]);
+                t.delivery = Delivery::Whole;
+                targets.push(t);
+            }
         }
         targets.push(Target {
             name: format!("h1-client:{who}:seed"),
